@@ -731,3 +731,13 @@ def FANFAIL(K=2, horizon=8, ops=None):
     if ops is None:
         ops = [('fail', 'M1', 0), ('restore', 'M1')]
     return spec(f'FANFAIL[K{K}]', devs, horizon, ops, K)
+
+
+def RES2(K=0, horizon=6, ops=None):
+    '''Two parallel processors holding one unit each of the SAME pool (capacity 2); the capacity is dropped below
+    what is held and raised again.'''
+    devs = [src('S', 1), proc('M1', ['S'], 2, resources={'r': 1}), proc('M2', ['S'], 3, resources={'r': 1}),
+            proc('M3', ['S'], 1, resources={'r': 1}), sink('K', ['M1', 'M2', 'M3'])]
+    if ops is None:
+        ops = [('addres', 'r', -2), ('addres', 'r', -1), ('addres', 'r', 1), ('fail', 'M1', 0), ('restore', 'M1')]
+    return spec(f'RES2[K{K}]', devs, horizon, ops, K, pools={'r': 2})
